@@ -533,7 +533,9 @@ def error_swallow(prog, chk):
         return sorted(out)
 
     n = 0
-    for b in prog.bodies.values():
+    table_fns = {e["function"] for e in table}
+    # functions with rows of their own first: they account for their reviewed places before a fallback may draw on them
+    for b in sorted(prog.bodies.values(), key=lambda b_: (strip_closures(b_.path) not in table_fns, b_.path)):
         if b.unit != "svgdx-lib":
             continue
         for st in errfate.result_fates(prog, b):
@@ -551,7 +553,9 @@ def error_swallow(prog, chk):
                 if e2 is None:
                     # a nested fn of the reviewed function (`bbox_raw::passthrough`) hoisted to module level or into a
                     # closure is still that function's code
-                    e2 = next((v_ for (f_, c_, kl_), v_ in allow.items() if f_.startswith(owner + "::") and c_ == k[1] and kl_ == klass(k[2])), None)
+                    # ... as many places as were reviewed there: while the nested fn still exists and accounts for
+                    # them itself, a further place in the enclosing function is a new one
+                    e2 = next((v_ for (f_, c_, kl_), v_ in allow.items() if f_.startswith(owner + "::") and c_ == k[1] and kl_ == klass(k[2]) and v_["used"] < v_["count"]), None)
                 # a reviewed (function, callee, class) covers every site of that kind in the function: merging two
                 # copies into a helper, or a helper spliced in at several call sites, changes the number of sites only
                 if e2 is not None:
